@@ -23,7 +23,7 @@ func (c14Mapper) MapType(m *Measurement, field string) DataType {
 }
 
 func c14Select(tier int) *SelectStatement {
-	g := &vfGen{tier: tier, budget: 1, sub: 1 + tier}
+	g := &vfGen{tier: 0, budget: 1, sub: 1 + tier} // thorough: two nested levels; names as in quick
 	genSelect(g)
 	text := g.text()
 	vfNote(text)
